@@ -10,6 +10,7 @@ import (
 	"verif/harness/internal/cancel"
 	"verif/harness/internal/core"
 	"verif/harness/internal/graph"
+	"verif/harness/internal/layers"
 	"verif/harness/internal/sched"
 	"verif/harness/internal/taskrun"
 	"verif/harness/internal/timed"
@@ -21,6 +22,7 @@ var engines = map[string]engine{
 	"C01": sched.Check, "C02": sched.Check, "C03": c03, "C04": sched.Check,
 	"C05": graph.Check,
 	"C06": taskrun.CheckC06, "C07": taskrun.CheckC07,
+	"C08": layers.CheckC08, "C09": layers.CheckC09, "C10": layers.CheckC10,
 	"C12": cancel.Check,
 	"C13": timed.Check,
 }
